@@ -54,6 +54,18 @@ let show_ts ts =
     (string_of_n ts.ts_complete) (string_of_n ts.ts_incomplete) (string_of_n ts.ts_downloaded)
     (string_of_n ts.ts_scrape_counter) (hex_of_bytes ts.ts_tracker_id)
 
+let show_dmsg = function
+  | MNoTid -> "No_transaction_ID" | MTidLong -> "Transaction_ID_length_too_long" | MNoType -> "No_message_type"
+  | MUnsupportedType -> "Unsupported_message_type" | MBadId -> "Invalid_`id'_value" | MIdShort -> "`id'_value_too_short"
+  | MTidBadLen -> "Invalid_transaction_ID_type/length." | MOwnId -> "Send_your_own_ID,_not_mine"
+  | MUnknownType -> "Unknown_message_type."
+let show_dht = function
+  | DIgnore | DInactive _ | DResponse (_, _) | DErrorMsg _ -> "none"
+  | DError (t, code, m) -> "e " ^ (match t with Some b -> hex_of_bytes b | None -> "~") ^ " " ^ string_of_n code ^ " " ^ show_dmsg m
+  | DQuery _ -> "Q"
+  | DFault -> "FAULT"
+let rec take n l = if n = 0 then [] else match l with [] -> [] | x :: r -> x :: take (n - 1) r
+
 let info_hash = List.init 20 (fun _ -> n_of_int 0x68)
 
 let () = each_line (fun line ->
@@ -64,7 +76,7 @@ let () = each_line (fun line ->
   | "AN" :: toks ->
       (match normalize (fst (parse_tree toks)) with
        | VList l -> "OK " ^ show_addrs (parse_normal l)
-       | _ -> "BADCASE")
+            | _ -> "BADCASE")
   | "PL" :: mx :: toks ->
       show_pres (fun (av, rets) ->
           "ret=" ^ (if rets = [] then "-" else String.concat "," (List.map string_of_n rets)) ^ " avail=" ^ show_addrs av)
@@ -79,4 +91,54 @@ let () = each_line (fun line ->
   | ["H"; ev; h] ->
       let (ts, e) = http_receive_done info_hash (n_of_string ev) (bytes_of_hex h) tstate0 in
       show_event e ^ " | " ^ show_ts ts
+  | "DH" :: own :: toks ->
+      let own = bytes_of_hex own in
+      let outs = List.map (fun (_, d) -> show_dht (dht_datagram own d))
+                   (let rec go = function [] -> [] | "D" :: s :: h :: r -> (s, bytes_of_hex h) :: go r | _ -> failwith "dgrams" in go toks) in
+      if outs = [] then "-" else String.concat " ; " outs
+  | ["DV"; h] ->
+      let d = bytes_of_hex h in
+      (match sm_read dht d with
+       | Ok (e, _) ->
+           "OK values=" ^ (match dht_reply_values d with
+                           | Some r -> (match r with POk l -> show_addrs l | PFault -> "FAULT" | POutOfFuel -> "OUTOFFUEL")
+                           | None -> "~")
+           ^ " nodes=" ^ (match ent_raw_string e k_r_nodes with
+                          | Some n -> let len = List.length n in hex_of_bytes (take (len - len mod 26) n)
+                          | None -> "~")
+       | Reject -> "REJECT" | Fault -> "FAULT" | OutOfFuel -> "OUTOFFUEL")
+  | "PX" :: mx :: toks ->
+      let mx = n_of_string mx in
+      let (av, rets) = List.fold_left (fun (av, rets) h ->
+          match pex_apply av mx (bytes_of_hex h) with
+          | PexRejected -> (av, rets @ ["REJECT"])
+          | PexDone (av', None) -> (av', rets @ ["~"])
+          | PexDone (av', Some r) -> (av', rets @ [string_of_n r])
+          | PexFault -> (av, rets @ ["FAULT"])) ([], []) toks in
+      "OK ret=" ^ (if rets = [] then "-" else String.concat "," rets) ^ " avail=" ^ show_addrs av
+  | "DH" :: own :: toks ->
+      let own = bytes_of_hex own in
+      let outs = List.map (fun (_, d) -> show_dht (dht_datagram own d))
+                   (let rec go = function [] -> [] | "D" :: s :: h :: r -> (s, bytes_of_hex h) :: go r | _ -> failwith "dgrams" in go toks) in
+      if outs = [] then "-" else String.concat " ; " outs
+  | ["DV"; h] ->
+      let d = bytes_of_hex h in
+      (match sm_read dht d with
+       | Ok (e, _) ->
+           "OK values=" ^ (match dht_reply_values d with
+                           | Some r -> (match r with POk l -> show_addrs l | PFault -> "FAULT" | POutOfFuel -> "OUTOFFUEL")
+                           | None -> "~")
+           ^ " nodes=" ^ (match ent_raw_string e k_r_nodes with
+                          | Some n -> let len = List.length n in hex_of_bytes (take (len - len mod 26) n)
+                          | None -> "~")
+       | Reject -> "REJECT" | Fault -> "FAULT" | OutOfFuel -> "OUTOFFUEL")
+  | "PX" :: mx :: toks ->
+      let mx = n_of_string mx in
+      let (av, rets) = List.fold_left (fun (av, rets) h ->
+          match pex_apply av mx (bytes_of_hex h) with
+          | PexRejected -> (av, rets @ ["REJECT"])
+          | PexDone (av', None) -> (av', rets @ ["~"])
+          | PexDone (av', Some r) -> (av', rets @ [string_of_n r])
+          | PexFault -> (av, rets @ ["FAULT"])) ([], []) toks in
+      "OK ret=" ^ (if rets = [] then "-" else String.concat "," rets) ^ " avail=" ^ show_addrs av
   | _ -> "BADCASE")
